@@ -3,7 +3,6 @@ import MythVerif.Proofs.WsQueueTsoTac
 namespace MythVerif.WsqTso
 open MythVerif.Wsq
 
-set_option maxHeartbeats 4000000 in
 theorem f_T_ptr3_pul (s : St) (p : Pid) (e0 : Elem) (e) : Inv s → s.opc = .pul e → s.lock = .thief p →
     s.bufT p = [.ptr (s.lb - 1) (some e0)] → s.tpc p = .tp3 e0 →
     Inv (applySto { s with bufT := upd s.bufT p [] } (.ptr (s.lb - 1) (some e0))) := by
@@ -11,7 +10,6 @@ theorem f_T_ptr3_pul (s : St) (p : Pid) (e0 : Elem) (e) : Inv s → s.opc = .pul
   simp only [applySto]
   tso_fastO h hopc [tp3, tp4, pul]
 
-set_option maxHeartbeats 4000000 in
 theorem f_T_ptr3_pu1 (s : St) (p : Pid) (e0 : Elem) (e t) : Inv s → s.opc = .pu1 e t → s.lock = .thief p →
     s.bufT p = [.ptr (s.lb - 1) (some e0)] → s.tpc p = .tp3 e0 →
     Inv (applySto { s with bufT := upd s.bufT p [] } (.ptr (s.lb - 1) (some e0))) := by
@@ -19,7 +17,6 @@ theorem f_T_ptr3_pu1 (s : St) (p : Pid) (e0 : Elem) (e t) : Inv s → s.opc = .p
   simp only [applySto]
   tso_fastO h hopc [tp3, tp4, pu1]
 
-set_option maxHeartbeats 4000000 in
 theorem f_T_ptr3_pu2 (s : St) (p : Pid) (e0 : Elem) (e t) : Inv s → s.opc = .pu2 e t → s.lock = .thief p →
     s.bufT p = [.ptr (s.lb - 1) (some e0)] → s.tpc p = .tp3 e0 →
     Inv (applySto { s with bufT := upd s.bufT p [] } (.ptr (s.lb - 1) (some e0))) := by
